@@ -5,6 +5,7 @@ From PGV Require Import Extracted.SourceConst.
 From PGV Require Import Model.RuleText Model.Value Model.Clause Model.Rules Model.Walk.
 From PGV Require Import Proofs.RuleContract Proofs.WalkProofs Proofs.WalkProofs2.
 From PGV Require Import Spec.WalkAddr Proofs.WalkAddrProofs.
+From PGV Require Import Base.MiniGo Extracted.SourceFns Model.GoParse Proofs.GoParseProofs.
 
 (* into a struct, through any number of pointer levels, under Parent.Field *)
 Theorem C04_enters_struct : forall rec ivk sn field cus tv si fs b,
@@ -96,3 +97,9 @@ Proof.
   destruct (remove_ptr v); try reflexivity. destruct H.
 Qed.
 Print Assumptions C04_nil_and_non_struct_have_no_instances.
+
+(* which fields are hidden: IsExported (valid/common.go), from its source text regenerated on every run,
+   computes the model's is_exported on every name (and never indexes an empty name) *)
+Theorem C04_is_exported_from_source : forall name : str, run_bool fn_IsExported name = Some (is_exported name).
+Proof. exact is_exported_from_source. Qed.
+Print Assumptions C04_is_exported_from_source.
